@@ -109,9 +109,10 @@ def to_bool(v):
     raise SpecError("cannot use %s as a truth value" % v.k)
 
 
-UF_MATH = {n: z3.Function(n, REAL, REAL) for n in ("cos", "sin", "sqrt", "acos")}
-UF_MATH["atan2"] = z3.Function("atan2", REAL, REAL, REAL)
-UF_MATH["pow"] = z3.Function("pow", REAL, REAL, REAL)
+# uninterpreted; names prefixed so that they do not shadow theory symbols of cvc5 (sqrt, sin, ...)
+UF_MATH = {n: z3.Function("libm_" + n, REAL, REAL) for n in ("cos", "sin", "sqrt", "acos")}
+UF_MATH["atan2"] = z3.Function("libm_atan2", REAL, REAL, REAL)
+UF_MATH["pow"] = z3.Function("libm_pow", REAL, REAL, REAL)
 M_PI = z3.Const("M_PI", REAL)
 OPENMP = z3.Const("OPENMP", BOOL)
 COL = {"real": z3.Function("col", A2, INT, A1), "int": z3.Function("coli", A2I, INT, A1I)}
